@@ -40,11 +40,21 @@ def raw_stored(t):
     return raw, C.stored_coords(raw["levels"], raw["vals"], raw["dims"], raw["ordering"])
 
 
-def build(ctor, coords, vals, dims, fmt):
+def build(ctor, coords, vals, dims, fmt, infer=False):
+    """infer=True: ``dimensions`` is omitted and tensora has to infer it (largest coordinate + 1 per axis)."""
     bridge.ensure_tensora()
     from tensora import Tensor
 
     order = len(dims)
+    if infer:
+        if ctor == "dok":
+            d = {}
+            for c, v in zip(coords, vals):
+                d[c] = d.get(c, 0.0) + v
+            return Tensor.from_dok(d, format=fmt)
+        if ctor == "soa" and order:
+            return Tensor.from_soa(tuple([c[k] for c in coords] for k in range(order)), list(vals), format=fmt)
+        return Tensor.from_aos(list(coords), list(vals), format=fmt)
     if ctor == "dok":
         d = {}
         for c, v in zip(coords, vals):
@@ -100,8 +110,14 @@ def check_construction(case):
         lvl = "dense-level" if dense_level else "compressed-level"
         return [fail(f"out-of-range-coordinate-accepted:{lvl}", f"{d} + out-of-range {bad}: no error, entry dropped or stored",
                      dense_level=dense_level, oob=list(bad))], {"oob": "accepted"}
+    infer = bool(case.get("infer_dims"))
+    if infer:
+        if not coords or order == 0:
+            return [], {"skipped": "nothing to infer from"}
+        dims = tuple(max(c[k] for c in coords) + 1 for k in range(order))
+        d += f" dimensions omitted (expected inference {dims})"
     try:
-        t = build(ctor, coords, vals, dims, fmt)
+        t = build(ctor, coords, vals, dims, fmt, infer=infer)
     except Exception as e:  # noqa: BLE001
         return [fail(f"constructor-raises:{type(e).__name__}", f"{d}: {e}"[:400])], {}
     if t.order != order or tuple(t.dimensions) != dims or t.format.deparse() != fmt_canon(fmt):
@@ -178,6 +194,8 @@ def labels_of(case):
         l.add("mixed_modes")
     if case.get("oob") is not None:
         l.add("out_of_range_variant")
+    if case.get("infer_dims"):
+        l.add("dimensions_inferred")
     if case.get("to_format"):
         l.add("to_format")
     return l
@@ -294,6 +312,9 @@ def generated_task(task):
             if len(case["dims"]) > 0 and k % 2 == 0:
                 for v in oob_variants(case):
                     stats.add(v, run_case(v))
+            if case["coords"] and case["ctor"] != "lol" and k % 2 == 1:
+                v = dict(case, infer_dims=True)
+                stats.add(v, run_case(v))
             if k % 3 == 0:
                 pending.append(case)
             if len(pending) >= 40:
